@@ -26,7 +26,8 @@ CONSTANTS
     U,          \* "big" | "small": which universe of patterns and answers
     MaxLen,     \* tables built entry by entry have at most this many entries
     EmitFrom,   \* tables shorter than this are enumerated but not emitted
-    Shard,      \* 0 = all tables; p > 0 = only tables whose first entry has pattern number p
+    Shard,      \* 0 = all tables; p in 1..7 = only tables whose first entry sits at a
+                \* position of EntrySeq congruent to p - 1 modulo 7 (a seventh of them)
     Perms,      \* TRUE: also check PermutationInvariant (costs a factor of Len(tab)!)
     Families,   \* 0: no families; 1: reduced cycle and ladder families; 2: full families
     Mode        \* "gen": tables only (+ vectors); "live": also the step machine
@@ -69,7 +70,7 @@ QTypes == {"A", "AAAA", "TXT"}
 Queries == {[h |-> h, t |-> t] : h \in QNames, t \in QTypes}
 
 \* --------------------------------------------------------------- entries
-\* Patterns, numbered (the number is the shard key).
+\* Patterns, in a fixed order.
 PatSeq == IF U = "big"
           THEN <<[w |-> FALSE, n |-> ac], [w |-> FALSE, n |-> bc], [w |-> FALSE, n |-> xac],
                  [w |-> FALSE, n |-> yac], [w |-> FALSE, n |-> xbc], [w |-> FALSE, n |-> yxac],
@@ -345,7 +346,7 @@ Init == /\ stage = "table" /\ tab = <<>> /\ last = 1 /\ vt = <<>> /\ wit = {}
         /\ q = NoQ /\ cs = NoChase /\ out = Pass
         /\ Header
 
-ShardOK(e) == IF Shard = 0 THEN TRUE ELSE PatSeq[Shard].w = e.w /\ PatSeq[Shard].n = e.n
+ShardOK(i) == IF Shard = 0 THEN TRUE ELSE i % 7 = Shard - 1
 
 \* Tables are built entry by entry in non-decreasing EntrySeq order: one
 \* representative of every multiset of at most MaxLen entries.  Outcomes does
@@ -354,7 +355,7 @@ ShardOK(e) == IF Shard = 0 THEN TRUE ELSE PatSeq[Shard].w = e.w /\ PatSeq[Shard]
 \* harness replays all orderings.
 AddEntry == /\ stage = "table" /\ Len(tab) < MaxLen
             /\ \E i \in last..Len(EntrySeq) :
-                 /\ tab = <<>> => ShardOK(EntrySeq[i])
+                 /\ tab = <<>> => ShardOK(i)
                  /\ last' = i
                  /\ SetTable(Append(tab, EntrySeq[i]), "table")
 
